@@ -1,6 +1,6 @@
 SPECIFICATION Spec
 CONSTANTS
-  FAMSEL = {"list", "vec", "hset", "struct", "box", "strs", "mixed", "sim"}
+  FAMSEL = {"list", "vec", "hset", "struct", "box", "sim"}
   NBUMP = 1
   SEED = 1
   BRANCH = 4
